@@ -48,8 +48,8 @@ void explore02(Options const& o, std::vector<Shim*> const& shims, std::vector<Sh
   rec.note("alphabet", "fixed*fixed: S^2, |S|=" + std::to_string(S.size()) + ", operators * and *=; fixed*n, n*fixed, fixed*=n: a in S' (|S'|=" + std::to_string(Sa.size())
            + ") x every value of the 8- and 16-bit types, S-shaped + boundary-window values of the 32/64-bit types");
   C02 c(rec);
-  std::vector<std::vector<u64>> tv(8);
-  for( int t = 0; t < 8; ++t ) tv[t] = int_type_values(t, th ? 6 : 4, 2, th ? 64 : 8);
+  std::vector<std::vector<u64>> tv(T_CODES);
+  for( int t : INT_TYPES ) tv[t] = int_type_values(t, th ? 6 : 4, 2, th ? 64 : 8);
   for( size_t ci = 0; ci < shims.size(); ++ci )
     {
     Shim* s = shims[ci];
@@ -72,7 +72,7 @@ void explore02(Options const& o, std::vector<Shim*> const& shims, std::vector<Sh
       u64 n = static_cast<u64>(S.size()) * S.size(); rec.add_states(n, n + n/4, n + n/4);
       rec.count("branch.ff.raw_product_fits_int64", brs[0]); rec.count("branch.ff.between", brs[1]); rec.count("branch.ff.out_of_range", brs[2]);
       }
-    for( int t = 0; t < 8; ++t ) for( int ord = 0; ord < 3; ++ord )
+    for( int t : INT_TYPES ) for( int ord = 0; ord < 3; ++ord )
       {
       std::vector<u64> const& ns = tv[t];
       std::mutex m; u64 brs[5] = {0,0,0,0,0};
@@ -145,8 +145,8 @@ void explore03(Options const& o, std::vector<Shim*> const& shims, std::vector<Sh
   rec.note("alphabet", "fixed/fixed: S^2, |S|=" + std::to_string(S.size()) + ", operators / and /=, every call under a SIGFPE/SIGSEGV/SIGABRT guard; fixed/n and fixed/=n: a in S' (|S'|=" + std::to_string(Sa.size())
            + ") x every value of the 8- and 16-bit types, S-shaped + boundary-window values of the 32/64-bit types");
   C03 c(rec);
-  std::vector<std::vector<u64>> tv(8);
-  for( int t = 0; t < 8; ++t ) tv[t] = int_type_values(t, th ? 6 : 4, 2, th ? 64 : 8);
+  std::vector<std::vector<u64>> tv(T_CODES);
+  for( int t : INT_TYPES ) tv[t] = int_type_values(t, th ? 6 : 4, 2, th ? 64 : 8);
   for( size_t ci = 0; ci < shims.size(); ++ci )
     {
     Shim* s = shims[ci];
@@ -174,7 +174,7 @@ void explore03(Options const& o, std::vector<Shim*> const& shims, std::vector<Sh
       u64 n = static_cast<u64>(S.size()) * S.size(); rec.add_states(n, 2*n, 2*n);
       rec.count("branch.ff.zero_divisor", brs[0]); rec.count("branch.ff.dividend_below_2^31", brs[1]); rec.count("branch.ff.dividend_at_least_2^31", brs[2]);
       }
-    for( int t = 0; t < 8; ++t ) for( int ord : { O_FIX_T, O_ASSIGN } )
+    for( int t : INT_TYPES ) for( int ord : { O_FIX_T, O_ASSIGN } )
       {
       std::vector<u64> const& ns = tv[t];
       std::mutex m; u64 brs[5] = {0,0,0,0,0};
